@@ -71,6 +71,19 @@ def token_factory_rules(ck, C):
             only = bool(tk) and roots and all(r[0] == "call" and r[1] in [c.bb for c in tk] for r in roots)
             dom = bool(tk) and T.t3_dominated_by_any(g, r_.bb, [c.bb for c in tk])
             ck.verdict(only and dom, C, "T6-provenance", g, "registers-under-fresh-factory-token", "the token registered is, on every path, the one just drawn from the TokenFactory (the factory advances on every registration)", "the source can (re)register under a token that was not freshly drawn from the TokenFactory (e.g. its previously stored token): the factory does not advance, and the next sub-source of the same composite source is handed the same token", site=g.where(r_.bb))
+    # .. and a re-registration never keeps the old arming with its old token: the factory restarts at sub-id 0 for every
+    # re-registration of a composite source, so a child that returns early ("still armed for the same deadline") keeps a
+    # token its next sibling is about to be handed
+    tr = ck.opt_body("<Timer as EventSource>::reregister")
+    if tr is None:
+        ck.anchor_missing(C, "T2-all-exits", "<Timer as EventSource>::reregister")
+    else:
+        retire = [cs.bb for cs in tr.calls() if not tr.is_cleanup(cs.bb) and ((cs.callee_body() is not None and cs.callee_body().qual == "<Timer as EventSource>::unregister") or (cs.name == "cancel" and cs.f and "TimerWheel" in cs.f["path"]) or (cs.name in ("take", "replace") and cs.args and T.path_has(tr, cs.args[0], ".registration")))]
+        okr = [i for i, j, st in tr.statements() if st["s"] == "assign" and st["pl"]["l"] in T.ret_locals(tr) and st["rv"]["r"] == "agg" and st["rv"].get("variant") == "Ok" and not tr.is_cleanup(i)]
+        # (the Ok may also be the one returned by the delegated register())
+        okr += [cs.bb for cs in tr.calls() if cs.callee_body() is not None and cs.callee_body().qual == "<Timer as EventSource>::register" and not tr.is_cleanup(cs.bb)]
+        bad = T.t2_all_exits(tr, [0], retire, exits=okr) if retire and okr else [0]
+        ck.verdict(bad is None, C, "T2-all-exits", tr, "reregister-retires-old-arming", "every successful re-registration of a timer first retires its previous arming (and with it the previous token)", "Timer::reregister can succeed while keeping its previous arming and token: in a composite source the TokenFactory restarts for every re-registration, so the next sibling is handed the token the timer still uses and receives the timer's expiry as its own event", site=tr.where(), path=path_descr(tr, bad) if bad else None)
     # ---- clause 7: sub-token allocation ------------------------------------------------------------------------
     tf = ck.opt_body("TokenFactory::token")
     if tf is None:
